@@ -4,7 +4,7 @@ TRUSTED_BASE_COMMON = [
     "Coq 8.16.1 kernel incl. vm_compute conversion (no native_compute)",
     "Print Assumptions of every property theorem: expected 'Closed under the global context' (allow-list below is empty)",
     "hand-written Gallina model of the Rust code; tie = differential correspondence (tools/check) + constants translator tools/srcparams.py",
-    "extraction: ExtrOcamlBasic only (Extract Inductive bool/option/list/prod/unit/sumbool/sumor to OCaml natives); OCaml 4.13.1; ocaml/conv.ml + per-group driver",
+    "extraction: ExtrOcamlBasic only (Extract Inductive bool/option/list/prod/unit/sumbool/sumor to OCaml natives); OCaml 4.13.1; ocaml/conv.ml + per-group driver -- cross-checked on every run: a sub-sample of the cases is re-evaluated inside Coq (vm_compute) through the independent translator tools/crosscheck.py and must print the same S and M (evidence: extraction_crosscheck)",
     "Rust harness (harness/): generators, canonicalisation, comparison; rustc/cargo of the sandbox",
 ]
 
